@@ -1,0 +1,98 @@
+//go:build verif
+
+package aquahash
+
+import (
+	"math/big"
+	"time"
+
+	"gitlab.com/aquachain/aquachain/consensus"
+	"gitlab.com/aquachain/aquachain/core/types"
+	"gitlab.com/aquachain/aquachain/params"
+)
+
+// Add-only exports for the verification harness (properties C13/C14).
+// Nothing here changes behaviour; the file is compiled only with -tags verif.
+
+// VerifMaxUncles returns the unexported uncle limits (before / from HF5).
+func VerifMaxUncles() (before, fromHF5 int) { return maxUncles, maxUnclesHF5 }
+
+// VerifAllowedFutureBlockTime returns the unexported future-block tolerance.
+func VerifAllowedFutureBlockTime() time.Duration { return allowedFutureBlockTime }
+
+// VerifEpochParams returns epochLength and maxEpoch used by VerifySeal's range check.
+func VerifEpochParams() (epochLen uint64, maxEp uint64) { return epochLength, maxEpoch }
+
+// VerifMaxUint256 returns a copy of the numerator of the PoW target.
+func VerifMaxUint256() *big.Int { return new(big.Int).Set(maxUint256) }
+
+// VerifFakeDifficultyMode reports whether FAKEPOWTEST was set at start-up.
+func VerifFakeDifficultyMode() bool { return fakedifficultymode }
+
+// VerifVerifyHeader exposes the unexported verifyHeader.
+func (aquahash *Aquahash) VerifVerifyHeader(chain consensus.ChainReader, header, parent, grandparent *types.Header, uncle bool, seal bool) error {
+	return aquahash.verifyHeader(chain, header, parent, grandparent, uncle, seal)
+}
+
+// VerifVerifyHeaderWorker exposes the unexported verifyHeaderWorker (run synchronously).
+func (aquahash *Aquahash) VerifVerifyHeaderWorker(chain consensus.ChainReader, headers []*types.Header, seals []bool, index int) error {
+	return aquahash.verifyHeaderWorker(chain, headers, seals, index)
+}
+
+// VerifCalcDifficultyHFX exposes the unexported calcDifficultyHFX.
+func VerifCalcDifficultyHFX(config *params.ChainConfig, time uint64, parent, grandparent *types.Header) *big.Int {
+	return calcDifficultyHFX(config, time, parent, grandparent)
+}
+
+// VerifCalcDifficultyStarting / HF1 / Grandparent / Testnet3 expose the branch functions.
+func VerifCalcDifficultyStarting(time uint64, parent *types.Header, chainID uint64) *big.Int {
+	return calcDifficultyStarting(time, parent, chainID)
+}
+func VerifCalcDifficultyHF1(time uint64, parent *types.Header, chainID uint64) *big.Int {
+	return calcDifficultyHF1(time, parent, chainID)
+}
+func VerifCalcDifficultyGrandparent(time uint64, parent, grandparent *types.Header, cfg *params.ChainConfig, chainID uint64) *big.Int {
+	return calcDifficultyGrandparent(time, parent, grandparent, cfg, chainID)
+}
+
+// VerifMine exposes the unexported nonce search with a caller-chosen start nonce.
+func (aquahash *Aquahash) VerifMine(version params.HeaderVersion, block *types.Block, id int, seed uint64, abort chan struct{}, found chan *types.Block) {
+	aquahash.mine(version, block, id, seed, abort, found)
+}
+
+// VerifErrClass maps the engine's private error values to a small stable enum.
+func VerifErrClass(err error) string {
+	switch err {
+	case nil:
+		return "ok"
+	case errLargeBlockTime:
+		return "large-time"
+	case errZeroBlockTime:
+		return "zero-time"
+	case errTooManyUncles:
+		return "too-many-uncles"
+	case errDuplicateUncle:
+		return "duplicate-uncle"
+	case errUncleIsAncestor:
+		return "uncle-is-ancestor"
+	case errDanglingUncle:
+		return "dangling-uncle"
+	case errNonceOutOfRange:
+		return "nonce-range"
+	case errInvalidDifficulty:
+		return "nonpositive-difficulty"
+	case errInvalidMixDigest:
+		return "mix-digest"
+	case errInvalidPoW:
+		return "pow"
+	case errUnknownGrandparent:
+		return "unknown-grandparent"
+	case consensus.ErrUnknownAncestor:
+		return "unknown-ancestor"
+	case consensus.ErrFutureBlock:
+		return "future"
+	case consensus.ErrInvalidNumber:
+		return "number"
+	}
+	return ""
+}
